@@ -130,6 +130,14 @@ func runSchedule(dir string, sc cScenario, schedule []string, rng *seqRng) cRun 
 	}
 	ops := map[string][]*cOp{}
 	verifhook.SetAnyPoint(func(name string) { s.yield(name) })
+	if sc.Points["mut:bset"] {
+		verifhook.SetMut(func(kind, key string, n int) {
+			if kind == "bset" && strings.HasPrefix(key, "file/") {
+				s.yield("mut:bset")
+			}
+		})
+		defer verifhook.SetMut(nil)
+	}
 	var wg sync.WaitGroup
 	for _, a := range s.actors {
 		wg.Add(1)
@@ -385,6 +393,10 @@ func concScenarios(which string) []cScenario {
 			{Name: "ru-read-vs-rollback", Roots: 1, Setup: []string{"s 0 " + k1 + " 300"},
 				Actors: map[string][]string{"R": {"b 1 RU", "g 1 " + k1, "c 1"}, "W": {"b 2 RC", "s 2 " + k1 + " 301", "r 2", "drain"}},
 				Order: []string{"R", "W"}, Points: map[string]bool{"uget.afterLookup": true},
+				Final: []string{"g 0 " + k1}},
+			{Name: "store-order", Roots: 1, Setup: []string{"s 0 " + k1 + " 300"},
+				Actors: map[string][]string{"A": {"s 0 " + k1 + " 301"}, "T": {"b 1 RC", "s 1 " + k1 + " 302", "g 1 " + k1, "c 1"}, "C": {"g 0 " + k1}},
+				Order: []string{"A", "T", "C"}, Points: map[string]bool{"mut:bset": true},
 				Final: []string{"g 0 " + k1}},
 			{Name: "rc-commit-vs-writers", Roots: 2, Setup: []string{"s 0 " + k1 + " 300"},
 				Actors: map[string][]string{"T": {"b 1 RC", "s 1 " + k1 + " 301", "s 1 " + k2 + " 311", "c 1"}, "W": {"s 0 " + k1 + " 302", "d 0 " + k2}, "R": {"g 0 " + k1, "k 0"}},
